@@ -25,6 +25,16 @@ type vclock struct {
 // deadlines computed from it are not invariant under rounding or truncation.
 const clockBase = int64(1700000000387654321)
 
+// idleGap is how far an advance moves the clock when no back-off is pending: seconds, minutes, hours or
+// days, chosen by the current instant (so the enumerating reference and the run agree without shared
+// state). Time passing between completions must not change what the counters mean: consecutive
+// failures stay consecutive however far apart they are. (Added after seeded change C15k - a failure
+// streak that "expires" after a minute - was missed: idle advances were always 3 s.)
+func idleGap(now int64) int64 {
+	gaps := [...]int64{int64(3*time.Second + 7*time.Millisecond), int64(61*time.Second + 13*time.Millisecond), int64(11*time.Minute + 29*time.Millisecond), int64(26*time.Hour + 31*time.Millisecond), int64(40*24*time.Hour + 37*time.Millisecond)}
+	return gaps[(now/int64(time.Millisecond))%int64(len(gaps))]
+}
+
 func newVClock() *vclock                          { return &vclock{Clock: clock.NewMock(), ns: clockBase} }
 func (c *vclock) Now() time.Time                  { return time.Unix(0, atomic.LoadInt64(&c.ns)) }
 func (c *vclock) advance(d int64)                 { atomic.AddInt64(&c.ns, d) }
@@ -437,7 +447,7 @@ func (x *seqRun) apply(ev event) *viol {
 		}
 	case 'A':
 		st.c[cAdvance]++
-		d := int64(3*time.Second + 7*time.Millisecond)
+		d := idleGap(x.r.now)
 		if x.r.pending() {
 			d = x.r.deadline - x.r.now + 1 // one nanosecond past the deadline
 		}
@@ -587,7 +597,7 @@ func applyRef(s *seqRef, ev event) {
 		if s.pending() {
 			s.now = s.deadline + 1
 		} else {
-			s.now += int64(3*time.Second + 7*time.Millisecond)
+			s.now += idleGap(s.now)
 		}
 	case 'a':
 		if s.pending() {
